@@ -18,6 +18,9 @@
 (*                    matching confirm, nothing after a new request, a     *)
 (*                    timeout or a disconnect                              *)
 (*   no-progress      a non-final fragment that carries no object          *)
+(*   packed-flags     the packed variation of a binary / double-bit point  *)
+(*                    is used exactly when the snapshot value's flags are  *)
+(*                    plainly ONLINE                                       *)
 (***************************************************************************)
 EXTENDS MonBase
 
@@ -44,8 +47,11 @@ MonInit == [cfg |-> [confirm_to |-> 5000, any_master |-> FALSE, self_addr |-> FA
 V(m, reason, l, ctx) == [m EXCEPT !.viol = Append(@, Viol("C11", reason, l, m.sc, ctx))]
 
 InitDb(cfg) == [i \in 1..Len(cfg.points) |-> [ty |-> cfg.points[i].ty, ix |-> cfg.points[i].ix,
-                                              val |-> cfg.points[i].init]]
-SetVal(db, ty, ix, val) == [i \in 1..Len(db) |-> IF db[i].ty = ty /\ db[i].ix = ix THEN [db[i] EXCEPT !.val = val] ELSE db[i]]
+                                              val |-> cfg.points[i].init, fl |-> 1]]
+SetVal(db, ty, ix, val, fl) == [i \in 1..Len(db) |-> IF db[i].ty = ty /\ db[i].ix = ix THEN [db[i] EXCEPT !.val = val, !.fl = fl] ELSE db[i]]
+FlOf(db, ty, ix) == LET r == SelectSeq(db, LAMBDA d : d.ty = ty /\ d.ix = ix) IN IF r = <<>> THEN 1 ELSE r[1].fl
+\* flags proper (the state bits of binary and double-bit points are not flags)
+PlainOnline(ty, fl) == (IF ty = "dbi" THEN fl % 64 ELSE fl % 128) = 1
 ValOf(db, ty, ix) == LET r == SelectSeq(db, LAMBDA d : d.ty = ty /\ d.ix = ix) IN IF r = <<>> THEN "?" ELSE r[1].val
 
 \* points a header selects, as <<[ty, ix, v]>> (v = requested variation, 0 = configured)
@@ -105,8 +111,18 @@ SeriesFragment(m, x, e, l, first) ==
                      LET want == LET hs == SelectSeq(sr.exp, LAMBDA r : r.ty = objs[i].ty /\ r.ix = objs[i].ix)
                                  IN IF hs = <<>> \/ hs[1].v = 0 THEN Svar(m.cfg, objs[i].ty, objs[i].ix) ELSE hs[1].v
                      IN ~VarAllowed(want, objs[i].v, objs[i].ty)
-        m9 == IF sr.check /\ varBad
+        m9a == IF sr.check /\ varBad
                 THEN V(m8, "variation", l, "static object not in the requested / configured variation") ELSE m8
+        \* a packed variation is used exactly when the value of the snapshot is plainly ONLINE
+        pkBad == \E i \in 1..Len(objs) :
+                     LET o == objs[i]
+                         want == LET hs == SelectSeq(sr.exp, LAMBDA r : r.ty = o.ty /\ r.ix = o.ix)
+                                 IN IF hs = <<>> \/ hs[1].v = 0 THEN Svar(m.cfg, o.ty, o.ix) ELSE hs[1].v
+                     IN o.ty \in {"bi", "dbi", "bos"} /\ want = 1 /\ ValOf(sr.snap, o.ty, o.ix) # "?"
+                        /\ (o.v = 1) # PlainOnline(o.ty, FlOf(sr.snap, o.ty, o.ix))
+        m9 == IF sr.check /\ ~varBad /\ pkBad
+                THEN V(m9a, "packed-flags", l, "packed variation used for a value that is not plainly ONLINE in the snapshot, or not used for one that is")
+                ELSE m9a
     IN [m9 EXCEPT !.ser = [sr EXCEPT !.got = got, !.next = Seq16(x.seq + 1), !.active = ~x.fin,
                                      !.lastT = x.t, !.lastBid = x.bid, !.awaitSeq = x.seq, !.wait = x.con]]
 
@@ -146,7 +162,7 @@ MonStep(m, e, l) ==
                  THEN [m00 EXCEPT !.ser.wait = FALSE] ELSE m00
         m1 == CASE e.k = "upd" ->
                     [m0 EXCEPT !.db = FoldLeft(LAMBDA acc, it : IF it.static /\ it.info # "nopoint"
-                                                                 THEN SetVal(acc, it.ty, it.ix, it.val) ELSE acc,
+                                                                 THEN SetVal(acc, it.ty, it.ix, it.val, it.fl) ELSE acc,
                                                @, e.items)]
                 [] e.k \in {"cut", "conn", "raw"} ->
                     [m0 EXCEPT !.ser.active = FALSE, !.ser.wait = FALSE, !.rd.pend = FALSE,
